@@ -180,7 +180,18 @@ func c09Consistent(priv, pub any) string {
 		} else if priv != nil {
 			return fmt.Sprintf("private key type %T with ecdsa public key", priv)
 		}
-		return c09ECConsistent(c08CurveTag(p.Curve), p.X, p.Y, d)
+		name := c08CurveTag(p.Curve)
+		if name == "other" && p.Curve != nil && p.Curve.Params() != nil {
+			// a foreign elliptic.Curve value: what counts is the REGISTERED curve (SEC 2 / FIPS 186 constants) of the
+			// name the key will be labelled with, not what the object computes about itself
+			if n := p.Curve.Params().Name; c08CoordLen(n) != 0 {
+				if w := c09ECConsistent(n, p.X, p.Y, d); w != "" {
+					return "foreign curve object labelled " + n + ": " + w
+				}
+				return ""
+			}
+		}
+		return c09ECConsistent(name, p.X, p.Y, d)
 	case *rsa.PublicKey:
 		if p.N.Sign() <= 0 || p.E < 2 {
 			return "rsa public key with n <= 0 or e < 2"
@@ -1297,6 +1308,11 @@ func execC09(c *vf.Ctx, d *vf.Driver, cs c09Case) {
 		mw, merr := d.Call(op, []vf.Wire{w[0]}, StdOracle)
 		mOut, mKey := c08ModelOut(mw, merr)
 		c.Case(string(kb), true)
+		if goOut.Tag == "ok" && k != nil {
+			// the independent predicate first: whatever the model says, an accepted object must be a consistent key of the
+			// REGISTERED curve it will be labelled with
+			c09CheckAccepted(c, cs, k.PrivateKey(), k.PublicKey(), k)
+		}
 		if !c09Cmp(c, cs, "jwk.New*Key", goOut, mOut) {
 			return
 		}
@@ -1305,12 +1321,60 @@ func execC09(c *vf.Ctx, d *vf.Driver, cs c09Case) {
 				c08Fail(c, "correspondence", "c09-go-value", "wrapped key differs from the model's ("+cs.Mut+")", cs, got, want)
 				return
 			}
-			c09CheckAccepted(c, cs, k.PrivateKey(), k.PublicKey(), k)
 			var merr2 error
 			if p2, w2 := vf.Recover(func() { _, merr2 = k.MarshalJSON() }); p2 {
 				c08Fail(c, "property", "c08-rsa-single-prime-marshal-panic", "MarshalJSON of a key accepted by NewPrivateKey panics: "+w2, cs, "panic", "no panic")
 			} else if merr2 != nil {
 				c.Count("go-accepted-but-marshal-error")
+			}
+		}
+		// the setter path: new(jwk.Key) + SetPrivateKey / SetPublicKey does not validate; MarshalJSON does.  Whatever
+		// it emits must be the JWK of a consistent key that ParseKey takes back.
+		k2 := new(jwk.Key)
+		var out []byte
+		var serr error
+		panicked, what = vf.Recover(func() {
+			if isPriv {
+				k2.SetPrivateKey(obj)
+			} else {
+				k2.SetPublicKey(obj)
+			}
+			out, serr = k2.MarshalJSON()
+		})
+		goOut = c08GoOut(panicked, what, serr)
+		setOp := "c08.setPublic"
+		if isPriv {
+			setOp = "c08.setPrivate"
+		}
+		mk, merr := d.Call(setOp, []vf.Wire{c08EmptyKeyWire(), w[0]}, nil)
+		if merr != nil {
+			return
+		}
+		mw, merr = d.Call("c08.marshal", []vf.Wire{mk}, StdOracle)
+		mOut, _ = c08ModelOut(mw, merr)
+		if goOut.Tag == "panic" && mOut.Tag == "panic" {
+			return // unvalidated short Ed25519/Ed448 keys: both panic at the seed slice (C07 territory)
+		}
+		if !c09Cmp(c, cs, "SetKey+MarshalJSON", goOut, mOut) {
+			return
+		}
+		if goOut.Tag == "ok" {
+			c.Count("go-set-marshal-ok:" + cs.Mut)
+			back, perr := jwk.ParseKey(out)
+			if perr != nil {
+				c08Fail(c, "property", "c09-go-marshalled-not-reparsable:"+cs.Mat.Kind, "MarshalJSON of a Key holding this Go object emits a JWK that ParseKey rejects ("+cs.Mut+"): "+perr.Error(), cs, string(out), "a JWK that parses back")
+				return
+			}
+			if why := c09Consistent(back.PrivateKey(), back.PublicKey()); why != "" {
+				c08Fail(c, "property", "c09-go-marshalled-inconsistent:"+cs.Mat.Kind, "MarshalJSON emitted the JWK of an inconsistent key ("+cs.Mut+"): "+why, cs, string(out), "error")
+			}
+		}
+		if k != nil && goOut.Tag == "ok" {
+			// a key accepted by New*Key: its JWK must parse back too
+			if out2, e2 := k.MarshalJSON(); e2 == nil {
+				if _, perr := jwk.ParseKey(out2); perr != nil {
+					c08Fail(c, "property", "c09-go-accepted-not-reparsable:"+cs.Mat.Kind, "the JWK of a key accepted by New*Key is rejected by ParseKey ("+cs.Mut+"): "+perr.Error(), cs, string(out2), "parses back")
+				}
 			}
 		}
 	case "pem":
@@ -1358,6 +1422,59 @@ func execC09(c *vf.Ctx, d *vf.Driver, cs c09Case) {
 	}
 }
 
+// permissive: an elliptic.Curve implementation of its own that reports a supported name and accepts every point
+type c09PermissiveCurve struct{ *elliptic.CurveParams }
+
+func (c c09PermissiveCurve) IsOnCurve(x, y *big.Int) bool { return true }
+
+var c09ForeignVariants = []string{"params", "alteredB", "alteredG", "alteredN", "alteredBits", "renamed", "permissive"}
+
+// c09ForeignCurve builds an elliptic.Curve value that is NOT one of the curve singletons but reports the supported name.
+func c09ForeignCurve(variant, name string) elliptic.Curve {
+	var base *elliptic.CurveParams
+	if name == "secp256k1" {
+		base = c08GoCurve(name).Params()
+	} else {
+		base = c08NistCurve(name).Params()
+	}
+	cp := *base
+	cp.P, cp.N, cp.B = new(big.Int).Set(base.P), new(big.Int).Set(base.N), new(big.Int).Set(base.B)
+	cp.Gx, cp.Gy = new(big.Int).Set(base.Gx), new(big.Int).Set(base.Gy)
+	switch variant {
+	case "params":
+		return base // the generic CurveParams implementation over the real constants
+	case "alteredB":
+		cp.B.Add(cp.B, big.NewInt(1))
+	case "alteredG":
+		if p, _ := vf.Recover(func() { cp.Gx, cp.Gy = base.ScalarBaseMult([]byte{2}) }); p {
+			cp.Gx = new(big.Int).Add(base.Gx, big.NewInt(1)) // (secp256k1: the generic formulas refuse its base point)
+		}
+	case "alteredN":
+		cp.N.Add(cp.N, big.NewInt(2))
+	case "alteredBits":
+		cp.BitSize -= 8
+	case "renamed":
+		r := *elliptic.P224().Params()
+		r.Name = name
+		return &r
+	case "permissive":
+		return c09PermissiveCurve{&cp}
+	}
+	return &cp
+}
+
+// c09ForeignPoint: a point that the FOREIGN curve accepts (y^2 = x^3 - 3x + B' over its P), found from x = 2 upwards
+func c09ForeignPoint(c elliptic.Curve) (*big.Int, *big.Int) {
+	p := c.Params()
+	for x := big.NewInt(2); ; x = new(big.Int).Add(x, big.NewInt(1)) {
+		rhs := new(big.Int).Mul(x, x)
+		rhs.Mul(rhs, x).Sub(rhs, new(big.Int).Mul(big.NewInt(3), x)).Add(rhs, p.B).Mod(rhs, p.P)
+		if y := new(big.Int).ModSqrt(rhs, p.P); y != nil && y.Sign() != 0 {
+			return x, y
+		}
+	}
+}
+
 // c09GoObject rebuilds a Go key object from its wire form (GoPriv / GoPub wire).
 func c09GoObject(w vf.Wire) (obj any, isPriv bool) {
 	if w.Kind != vf.KArr || len(w.Arr) == 0 {
@@ -1373,6 +1490,10 @@ func c09GoObject(w vf.Wire) (obj any, isPriv bool) {
 	curve := func(s string) elliptic.Curve {
 		if s == "other" {
 			return elliptic.P224()
+		}
+		if strings.HasPrefix(s, "foreign/") { // foreign/<variant>/<reported name>
+			parts := strings.SplitN(s, "/", 3)
+			return c09ForeignCurve(parts[1], parts[2])
 		}
 		return c08GoCurve(s)
 	}
@@ -1582,8 +1703,40 @@ func c09GenCOSE(r *vf.Rand) c09Case {
 	return c09Case{Surface: "cose", Mat: m, Mut: mut, COSE: uniq}
 }
 
-var c09GoMuts = []string{"none", "d+1", "d-zero", "d+n", "d-neg", "d-nil", "y+1", "zero-zero", "p224", "neg-x", "rsa-d+1", "rsa-n+2", "rsa-one-prime",
+var c09GoMuts = []string{"foreign-real", "foreign-own", "foreign-real", "foreign-own", "none", "d+1", "d-zero", "d+n", "d-neg", "d-nil", "y+1", "zero-zero", "p224", "neg-x", "rsa-d+1", "rsa-n+2", "rsa-one-prime",
 	"rsa-three-primes", "rsa-e-one", "rsa-n-neg", "ed-short", "ed-long", "ed-mismatch", "okp-short", "okp-mismatch", "oct", "unknown-type"}
+
+// c09GenGoForeign: an ecdsa key object on a FOREIGN elliptic.Curve value that reports a supported name; the point is a
+// genuine key of the real curve (own = false) or a point / key pair the foreign object itself accepts (own = true).
+func c09GenGoForeign(r *vf.Rand, crv, variant string, own, priv bool) c09Case {
+	if crv == "secp256k1" && (variant == "renamed" || variant == "alteredB") {
+		crv = "P-256" // the generic CurveParams formulas assume a = -3
+	}
+	m := c08GenEC(r, crv, true)
+	tag := "foreign/" + variant + "/" + crv
+	x, y, dw := c08hex(m.X), c08hex(m.Y), vf.BigInt(c08hex(m.D))
+	mut := "foreign-real:" + variant
+	if own {
+		mut = "foreign-own:" + variant
+		fc := c09ForeignCurve(variant, crv)
+		if variant == "renamed" || variant == "alteredG" || variant == "alteredN" || variant == "params" {
+			dd := c08randScalar(r, fc.Params().N) // a full key pair in the foreign object's own arithmetic
+			if p, _ := vf.Recover(func() { x, y = fc.Params().ScalarBaseMult(dd.Bytes()) }); p {
+				x, y = c09ForeignPoint(fc) // (generic a = -3 formulas refuse the base point of secp256k1)
+				priv = false
+			}
+			dw = vf.BigInt(dd)
+		} else {
+			x, y = c09ForeignPoint(fc)
+			priv = false
+		}
+	}
+	w := vf.Arr(vf.Str("ecdsa"), vf.Str(tag), vf.BigInt(x), vf.BigInt(y))
+	if priv {
+		w = vf.Arr(vf.Str("ecdsa"), vf.Str(tag), vf.BigInt(x), vf.BigInt(y), dw)
+	}
+	return c09Case{Surface: "go", Mat: m, Mut: mut, GoPriv: w.Render()}
+}
 
 func c09GenGo(r *vf.Rand) c09Case {
 	mut := vf.Pick(r, c09GoMuts)
@@ -1641,6 +1794,9 @@ func c09GenGo(r *vf.Rand) c09Case {
 			b = c09flip(b, r)
 		}
 		w = vf.Arr(vf.Str(map[string]string{"X25519": "x25519", "Ed448": "ed448", "X448": "x448"}[crv]), vf.Bytes(b))
+	case mut == "foreign-real" || mut == "foreign-own":
+		crv := vf.Pick(r, c08Curves)
+		return c09GenGoForeign(r, crv, vf.Pick(r, c09ForeignVariants), mut == "foreign-own", r.Bool())
 	default:
 		crv := vf.Pick(r, c08Curves)
 		m = c08GenEC(r, crv, true)
@@ -1846,6 +2002,15 @@ func runC09(c *vf.Ctx) {
 			for _, v := range c09JointVariants {
 				for _, broken := range []bool{false, true} {
 					sys = append(sys, c09GenJointCase(sr, m, pr[0], pr[1], v, broken))
+				}
+			}
+		}
+	}
+	for _, crv := range c08Curves {
+		for _, variant := range c09ForeignVariants {
+			for _, own := range []bool{false, true} {
+				for _, priv := range []bool{false, true} {
+					sys = append(sys, c09GenGoForeign(sr, crv, variant, own, priv))
 				}
 			}
 		}
